@@ -219,6 +219,16 @@ def run(chk):
             chk.violation("C02.chunkpair", c, K.short(c), "a guard that self.chunked satisfies on its own",
                           f"{c.fn.name}(): _update_transfer_encoding() is skipped for a body-less GET/HEAD/OPTIONS even with chunked=True, while _create_writer() enables chunk framing whenever chunked is set: `0\\r\\n\\r\\n` goes out after the header block without a Transfer-Encoding header and the server reads it as a malformed next request",
                           path_condition=norm.fmt_cnf(cl))
+        # ... and one that a caller-supplied Transfer-Encoding header satisfies on its own (the header is sent as given: with `chunked` in it the
+        # body-less GET announces a chunked body and must send the terminator)
+        if c.fn.name == "__init__":
+            narrowed2 = [cx for cx in cl if not any("hdrs.TRANSFER_ENCODING in self.headers" in l.text and l.pos for l in cx)]
+            if not narrowed2:
+                chk.ok("C02.chunkpair", c, "__init__(): the Transfer-Encoding decision is also taken whenever the caller supplied the header")
+            else:
+                chk.violation("C02.chunkpair", c, K.short(c), "a guard that `hdrs.TRANSFER_ENCODING in self.headers` satisfies on its own",
+                              "__init__(): _update_transfer_encoding() is skipped for a body-less GET/HEAD/OPTIONS that carries the caller's `Transfer-Encoding: chunked` header: the header goes out but no `0\\r\\n\\r\\n` follows, and the server waits for a chunked body that never ends",
+                              path_condition=norm.fmt_cnf(cl))
     # a caller-supplied `Transfer-Encoding: chunked` header switches the writer to chunk framing too
     te = [a for a in ast.walk(ute.node) if isinstance(a, ast.Assign) and norm.raw(a) == "self.chunked = True"]
     if te and any("chunked" in norm.fmt_cnf(PC.pc(a)) for a in te):
